@@ -169,6 +169,17 @@ UNITS += [
     U("U-wrap-slots", ["VueJsxTransformVisitor::wrap_children"], ["wrap_object_slots", "wrap_expr_slots"], ["C13"], completeness="bounded", tier="thorough", domain="v-slots {object literal, expression} x symbolic options and slot flag", mem_gb=16, timeout=2400, assumes=[A_DROP, A_CLONE, A_FMT]),
 ]
 
+UNITS += [
+    U("U-emit-hints", ["VueJsxTransformVisitor::transform_jsx_element[hint emission]"], ["hints_no_dynamic_props", "hints_one_dynamic_prop", "hints_two_dynamic_props", "hints_list_absent"], ["C13"],
+      domain="hint-emission region of transform_jsx_element (extracted verbatim): every flag word 0..2047 (symbolic) x dynamic-prop list {absent, empty, 1, 2 names} x symbolic options: complete over that domain",
+      mem_gb=6, timeout=900, unwindset={"memcmp.0": 12}, assumes=[A_DROP, A_CLONE, A_FMT, A_EXTRACT]),
+    U("U-wrap-directives", ["VueJsxTransformVisitor::transform_jsx_element[withDirectives wrapping]", "VueJsxTransformVisitor::resolve_directive"],
+      ["wrapdir_none", "wrapdir_value_only", "wrapdir_with_arg", "wrapdir_with_mods_only", "wrapdir_with_arg_and_mods", "wrapdir_two"], ["C04"], completeness="bounded", tier="thorough",
+      domain="withDirectives region of transform_jsx_element (extracted verbatim): 0, 1 (x arg / modifiers present) or 2 directives", mem_gb=20, timeout=3600, unwindset={"memcmp.0": 16}, assumes=[A_DROP, A_CLONE, A_FMT, A_EXTRACT]),
+    U("U-fragment", ["VueJsxTransformVisitor::transform_jsx_fragment"], ["fragment_lowering"], ["C02", "C15"], completeness="bounded", tier="thorough",
+      domain="empty fragment x {pragma option, none} x symbolic options", mem_gb=16, timeout=2400, unwindset={"memcmp.0": 16}, assumes=[A_DROP, A_CLONE, A_FMT]),
+]
+
 CANARY = dict(harness="canary_must_fail", timeout=300, mem_gb=4)
 
 PROPERTIES = {}
